@@ -76,7 +76,8 @@ def valid_pdu(r, kind, size):
     if kind == "w23":
         return L.pdu_rwm(a, n, r.randrange(0, size - 4), [r.randrange(65536) for _ in range(r.randrange(1, 3))])
     if kind == "dev":
-        return L.pdu_devinfo(r.choice([1, 2, 3, 4]), r.choice([0, 1, 2, 3, 6]))
+        # read code 0 makes execute() raise KeyError: the catch-all of execute() answers exception 04
+        return L.pdu_devinfo(r.choice([0, 1, 2, 3, 4]), r.choice([0, 1, 2, 3, 6]))
     if kind == "diag0":
         return L.pdu_diag(0, r.randrange(65536))
     if kind == "fc7":
